@@ -120,3 +120,22 @@ Example C05_source_example :
   /\ ImpGen.imp_newick_nameFromText (bs "'it''s'") = GoSem.Ret (bs "it's")
   /\ ImpGen.imp_newick_nameFromText (bs "a_b") = GoSem.Ret (bs "a b").
 Proof. vm_compute. repeat split. Qed.
+
+From Bio.Proofs Require ImpProofsI.
+
+(* The tree writer (n *Node) newick(buf) as translated from newick.go — the recursion over
+   Children with '(' ',' ')', the name through nameToText, ":" and the distance unless it is
+   zero — appends to the buffer exactly the model's text, for every tree, every buffer and
+   every float oracle (the table standing for strconv's formatting; a distance is its
+   canonical text).  The recursion runs on fuel; any fuel above the number of nodes is enough. *)
+Theorem C05_writer_is_source : forall o fuel t buf, (size t < fuel)%nat ->
+  ImpGen.imp_newick_Node_newick fuel o (ImpProofsI.node_of t) buf = GoSem.Ret (buf ++ newick_text o t).
+Proof. exact ImpProofsI.imp_newick_write. Qed.
+Print Assumptions C05_writer_is_source.
+
+Example C05_source_writer_example :
+  let o := {| f_parse := []; f_fmt := [(bs "1.5", bs "1.5")] |} in
+  ImpGen.imp_newick_Node_newick 9 o
+    (ImpProofsI.node_of (Node (bs "r") zeroF [Node (bs "a b") (bs "1.5") []; Node (bs "c") zeroF []])) []
+  = GoSem.Ret (bs "(a_b:1.5,c)r").
+Proof. vm_compute. reflexivity. Qed.
